@@ -46,17 +46,28 @@ func (s *sgen) sp() string         { return s.g.sp() }
 
 var plainTagVals = []string{"b", "app1", "1.2.3.4", "x-y", "d_e", "v:1"}
 
+var delicateTagVals = []string{`"trail "`, `" lead"`, `" both "`, `"x,y"`, `"a=b"`, `""`, `"x}"`, `"}"`, "`b q`", "`x `", `"a b"`, `" "`, "\"`bq\"", `"{x"`}
+
 // a {tags} token; plain = values the tag line printer is known to print re-parsably (C08)
 func (s *sgen) tags(plain bool) string {
 	n := s.r.PickInt(1, 1, 2, 3)
+	if !plain {
+		n = s.r.PickInt(1, 2, 2, 3, 3, 4)
+	}
 	names := []string{"a", "name", "ip", "c", "k-1", "x.y"}
 	var ps []string
 	for _, i := range s.r.Perm(len(names))[:n] {
 		v := plainTagVals[s.r.Intn(len(plainTagVals))]
 		if !plain {
-			v = s.r.PickStr(`"x,y"`, `"a=b"`, `""`, `"q\"uote"`, "`b q`", `" lead"`, `"x}"`, "日本", v)
+			v = s.r.PickStr(`"x,y"`, `"a=b"`, `""`, `"q\"uote"`, "`b q`", `" lead"`, `"x}"`, "日本", v,
+				// edge blanks, separators, quote characters and braces: the names are drawn in random order, so such a value
+				// comes first, in the middle and last in the sorted line (Line() quotes by value AND position)
+				`"trail "`, `" both "`, `"two  "`, `" "`, `"tab\t"`, `"\tx"`, "`x `", "` x`", `"}"`, `"{x"`, `"x}y"`, "\"`bq\"", `"y\"`, `",x"`, `"x="`, `"a b"`, `"new\nline"`)
 		} else if s.r.Chance(1, 4) {
 			v = `"` + v + `"`
+		} else if s.r.Chance(1, 4) {
+			// delicate values that Line() is expected to print re-parsably, wherever they stand in the sorted line
+			v = s.r.PickStr(delicateTagVals...)
 		}
 		ps = append(ps, names[i]+s.r.PickStr("=", "=", " = ")+v)
 	}
